@@ -35,6 +35,13 @@ impl<K, V> BTreeMap<K, V> {
             !old(self)@.contains_key(k) ==> is_default(*r),
             final(self)@ == old(self)@.insert(k, *final(r)),
     { unimplemented!() }
+    /// snapshot of the keys (rule N7m / `keys().copied().collect()`): every key exactly once; the iteration ORDER is left
+    /// unspecified (weaker than std's ascending order, so proofs hold for any order)
+    #[verifier::external_body]
+    pub fn vkeys(&self) -> (r: Vec<K>)
+        ensures r@.no_duplicates(), forall|k: K| r@.contains(k) <==> self@.contains_key(k), forall|i: int| 0 <= i < r@.len() ==> self@.contains_key(#[trigger] r@[i]),
+                self@.dom().finite(), r@.len() == self@.len(),
+    { unimplemented!() }
     #[verifier::external_body]
     pub fn remove(&mut self, k: &K) -> (r: Option<V>)
         ensures
@@ -90,4 +97,61 @@ impl PoolWorld {
                 final(self).verifies() == old(self).verifies().push(old(self).time()),
                 final(self).time() == old(self).time(), final(self).nows() == old(self).nows(),
     { unimplemented!() }
+}
+/// elements of a std HashSet as a Vec (iteration, rule N2s): every element exactly once; the ORDER is unspecified
+#[verifier::external_body]
+pub fn vset_elems<T: Copy>(s: &HashSet<T>) -> (r: Vec<T>)
+    ensures r@.no_duplicates(), forall|x: T| r@.contains(x) <==> s@.contains(x), forall|i: int| 0 <= i < r@.len() ==> s@.contains(#[trigger] r@[i]),
+            s@.finite(), r@.len() == s@.len(),
+{ unimplemented!() }
+/// std: `Option<&T>::copied()` maps `Some(&v)` to `Some(v)` and `None` to `None`
+pub assume_specification<'a, T: Copy>[ Option::<&'a T>::copied ](o: Option<&'a T>) -> (r: Option<T>)
+    ensures r == (match o { Some(v) => Some(*v), None => None }),
+;
+// std: `Instant + Duration` / `Instant += Duration` advance the instant and panic on overflow (model: u64 clock)
+impl vstd::std_specs::ops::AddAssignSpecImpl<Duration> for Instant {
+    open spec fn obeys_add_assign_spec() -> bool { true }
+    open spec fn add_assign_req(&self, rhs: Duration) -> bool { self.t + rhs.d <= u64::MAX }
+    open spec fn add_assign_spec(&self, rhs: Duration) -> &Instant { &Instant { t: (self.t + rhs.d) as u64 } }
+}
+impl core::ops::AddAssign<Duration> for Instant {
+    fn add_assign(&mut self, rhs: Duration) { self.t = self.t + rhs.d; }
+}
+impl vstd::std_specs::ops::AddSpecImpl<Duration> for Instant {
+    open spec fn obeys_add_spec() -> bool { true }
+    open spec fn add_req(self, rhs: Duration) -> bool { self.t + rhs.d <= u64::MAX }
+    open spec fn add_spec(self, rhs: Duration) -> Instant { Instant { t: (self.t + rhs.d) as u64 } }
+}
+impl core::ops::Add<Duration> for Instant {
+    type Output = Instant;
+    fn add(self, rhs: Duration) -> (r: Instant) { Instant { t: self.t + rhs.d } }
+}
+impl<K, V> BTreeMap<K, V> {
+    #[verifier::external_body]
+    pub fn get(&self, k: &K) -> (r: Option<&V>)
+        ensures r is Some <==> self@.contains_key(*k), r is Some ==> *r->Some_0 == self@[*k],
+    { unimplemented!() }
+}
+/// entries of the map as a Vec of (key, &value) (iteration `m.iter()`, rule N2s): every entry exactly once; ORDER unspecified
+#[verifier::external_body]
+pub fn ventries<'a, K: Copy, V>(m: &'a BTreeMap<K, V>) -> (r: Vec<(K, &'a V)>)
+    ensures
+        forall|i: int, j: int| 0 <= i < j < r@.len() ==> r@[i].0 != r@[j].0,
+        forall|i: int| 0 <= i < r@.len() ==> m@.contains_key(#[trigger] r@[i].0) && *r@[i].1 == m@[r@[i].0],
+        forall|k: K| m@.contains_key(k) ==> exists|i: int| 0 <= i < r@.len() && #[trigger] r@[i].0 == k,
+        m@.dom().finite(), r@.len() == m@.len(),
+{ unimplemented!() }
+/// N8e: `Option::unwrap_or_default()` per payload type
+pub trait VUnwrapOrDefault<T> { fn vunwrap_or_default(self) -> T; }
+impl<T> VUnwrapOrDefault<Vec<T>> for Option<Vec<T>> {
+    /// std: Vec's Default is the empty vector
+    fn vunwrap_or_default(self) -> (r: Vec<T>)
+        ensures r == (match self { Some(v) => v, None => r }), self is None ==> r@.len() == 0,
+    { match self { Some(v) => v, None => Vec::new() } }
+}
+impl VUnwrapOrDefault<Duration> for Option<Duration> {
+    /// std: Duration's Default is the zero duration
+    fn vunwrap_or_default(self) -> (r: Duration)
+        ensures r.d == (match self { Some(v) => v.d, None => 0 }),
+    { match self { Some(v) => v, None => Duration { d: 0 } } }
 }
